@@ -18,7 +18,7 @@ F = ['Position::makeMove (position.cpp:231-298)', 'Position::unMakeMove (301-344
      'Position::setEpSquare/setCastleMask/setWhiteMove (position.hpp)', 'MatId::addPiece/removePiece (material.hpp)', 'Position::castleSqMask, psHashKeys, castleHashKeys, epHashKeys (dumped real tables)', 'BitBoard::epMaskW/epMaskB']
 
 def build(tier):
-    u = Unit('pos', 'C02/pos.cpp', ['h_matid', 'h_step', 'h_undo', 'h_undoB', 'h_setpiece', 'h_edits', 'h_scratchhash', 'h_serialize'],
+    u = Unit('pos', 'C02/pos.cpp', ['h_matid', 'h_step', 'h_undo', 'h_undoB', 'h_undoSEE', 'h_setpiece', 'h_edits', 'h_scratchhash', 'h_serialize'],
              allow_extern=[r'_ZN11NNEvaluator.*'])   # behind if(nnEval): nnEval is concretely nullptr in every harness
     kinds = ['white piece', 'white king (incl. castling)', 'white pawn (push, double push, capture, en passant, promotion)',
              'black piece', 'black king (incl. castling)', 'black pawn (push, double push, capture, en passant, promotion)']
@@ -32,6 +32,9 @@ def build(tier):
         obs.append(Ob('O1-undoB@%d' % k, u, 'h_undoB', 'makeMoveB then unMakeMoveB (the board-only pair MoveGen::isLegal runs on the live position), mover = ' + kinds[k] + ': board as after the move, side/rights/keys/material untouched, and the take-back restores a bit-identical state',
                       unwind=65, param=k, timeout=1800, mem_gb=12, functions=['Position::makeMoveB (position.cpp:347-390)', 'Position::unMakeMoveB (position.hpp:445-474)', 'setPieceB', 'movePieceNotPawnB'], backend='kissat',
                       bounds='arbitrary state (64 symbolic squares, 12 symbolic piece sets, symbolic keys/sums/counters); any from/to/promotion of the shape class'))
+        obs.append(Ob('O1-undoSEE@%d' % k, u, 'h_undoSEE', 'makeSEEMove then unMakeSEEMove (the pair Search::SEE runs on the live position, also for quiet moves), mover = ' + kinds[k] + ': board as after the move without promotion/rook relocation, side flipped, rights/keys/material untouched, and the take-back restores a bit-identical state',
+                      unwind=65, param=k, timeout=1800, mem_gb=12, functions=['Position::makeSEEMove / unMakeSEEMove (position.hpp:523-557)', 'setSEEPiece'], backend='kissat',
+                      bounds='arbitrary state (64 symbolic squares, 12 symbolic piece sets, symbolic keys/sums/counters); any from/to of the shape class'))
     names = ['setPiece', 'clearPiece', 'movePieceNotPawn']
     for k in range(3):
         obs.append(Ob('O3-%s' % names[k], u, 'h_setpiece', names[k] + ' from an arbitrary state: frame, local invariant, key/sum deltas', unwind=65, param=k, timeout=900,
